@@ -1,7 +1,7 @@
 (* C08  Debt concentration clears V-q; the burn returns the maximal legal firing set. *)
 From Coq Require Import ZArith List Bool.
 Import ListNotations.
-From CF Require Import ListAux Defs Burn Core Cert DharLink CertLink QredLink.
+From CF Require Import ListAux Defs Burn Core Cert DharLink CertLink QredLink PyDict ImpRep TranslatedImpDharAlgorithm ImpLinkDhar.
 Open Scope Z_scope.
 
 (* concentration (any processing order, any fuel on which it returns): debt-free off q, obtained by borrowing moves off q only
@@ -37,3 +37,14 @@ Print Assumptions C08_empty_iff_superstable.
 Example C08_nonvacuous : let g := [[0;1;1];[1;0;1];[1;1;0]] in
   concentrate 100 g 0%nat (default_ord g 0%nat) [0;-3;1] = Done [-3;0;1] /\ unburnt_list g 0%nat [0;2;2] = [1;2]%nat /\ unburnt_list g 0%nat [0;1;0] = [].
 Proof. repeat split; vm_compute; reflexivity. Qed.
+
+(* DharAlgorithm.outdegree_S as translated from /repo's CURRENT source (a generator sum over the neighbours that lie in the set): for dictionaries representing g it is
+   exactly edges_to - the number of edges from the vertex into the burnt set which the burning test (burn_step, C08_burn) compares the chips with; 0 for an unknown name *)
+Theorem C08_source_outdegree_S : forall g gg v B, wfb g = true -> rep_graph gg g ->
+  DharAlgorithm_outdegree_S gg v B = PyOk (edges_to (Vg g) (mult g) v B).
+Proof. exact outdegree_S_refines. Qed.
+Print Assumptions C08_source_outdegree_S.
+Example C08_source_outdegree_nonvacuous : let g := [[0;2;1];[2;0;1];[1;1;0]] in
+  DharAlgorithm_outdegree_S (dict_of_graph g) 0%nat [1;2]%nat = PyOk 3 /\ DharAlgorithm_outdegree_S (dict_of_graph g) 2%nat [1]%nat = PyOk 1 /\
+  DharAlgorithm_outdegree_S (dict_of_graph g) 5%nat [1]%nat = PyOk 0.
+Proof. vm_compute. repeat split. Qed.
